@@ -51,6 +51,11 @@ def subscriber_fails_on_stop_cases(seed, tier):
             plan += [msg(S, "checkpoint"), msg(S, "create", None, name="primary", run=k), msg(S, "read", d, run=k), msg(S, "save", None, run=k)]
         handled = rng.random() < 0.7
         close = msg(S, "close_run", None, run=victim)
+        if rng.random() < 0.25:
+            # the plan leaves the victim run open: the engine's end-of-call clean-up writes the RunStop, the subscriber
+            # fails on *that* one (the clean-up's second attempt must not produce a second RunStop)
+            close = msg(S, "null")
+            handled = False
         if handled:
             plan.append({"op": "try", "site": S(), "body": [close], "handlers": [{"exc": "Exception", "body": [msg(S, "null")], "reraise": False}]})
             again = [msg(S, "create", None, name="primary", run=victim), msg(S, "read", d, run=victim), msg(S, "save", None, run=victim)]
